@@ -299,9 +299,10 @@ class ClassVal:
 class Record:
     """Instance of a repository class (or a stub object) with attribute dictionary."""
 
-    __slots__ = ("cls", "attrs", "label", "native_methods")
+    __slots__ = ("cls", "attrs", "label", "native_methods", "attrs_files")
 
     def __init__(self, cls, attrs=None, label=None):
+        self.attrs_files = None
         self.cls = cls
         self.attrs = attrs if attrs is not None else {}
         self.label = label
